@@ -1,6 +1,6 @@
 SPEC = dict(
     level="exploration",
-    technique="runtime monitor: reference segment matcher run side by side with the real router (patRouter.ServeHTTP and engine.bindRoutes-composed chain) over seeded route tables and near-exhaustive request paths per table",
+    technique="runtime monitor: reference segment matcher run side by side with the real router (patRouter.ServeHTTP and engine.bindRoutes-composed chain) over seeded route tables and near-exhaustive request paths per table; the same oracle per request on batches served from 8 goroutines at once under the Go race detector",
     level_text="For each generated route table (valid, duplicate, dirty and invalid registrations) every registration's acceptance and every request's outcome (which handler ran, pathvar.Vars, 404/405 + Allow set) is compared with an independent 25-line matcher over the accepted patterns: all paths up to depth 3 over a 4-letter alphabet plus sampled deeper and dirty paths, 4 methods, ~660 requests per table, 1500 tables quick / 120k thorough. Held = no deviation observed on those tables.",
     level_note="Trusts path.Clean as the definition of 'cleaned path', the reference matcher, httptest. Patterns with repeated parameter names and parameter names that are empty are not generated (unspecified). When several parameterised patterns match, any of them is accepted (the statement only fixes the all-literal winner).",
     design_ref="DESIGN.md §3 C03",
@@ -10,7 +10,8 @@ SPEC = dict(
         "custom not-found / not-allowed handlers replace the default answer (covered by existing unit tests); the monitor checks the default 404/405 path",
     ],
     runs=[
-        dict(pkg="./api/router", run="^TestVerifC03", timeout=240, timeout_thorough=3000),
-        dict(pkg="./api", run="^TestVerifC03", timeout=240, timeout_thorough=3000),
+        dict(name="router", pkg="./api/router", run="^TestVerifC03Router$", timeout=240, timeout_thorough=3000),
+        dict(name="concurrent", pkg="./api/router", run="^TestVerifC03ConcurrentRace$", race=True, timeout=300, timeout_thorough=3000),
+        dict(name="server", pkg="./api", run="^TestVerifC03", timeout=240, timeout_thorough=3000),
     ],
 )
